@@ -556,3 +556,84 @@ func VerifC12StalledSender() {
 	verifCheckLines(stream[:cut], d.copies)
 	verifCover("end")
 }
+
+// VerifC12TwoStreams: one listener has ONE Plain handler, and every accepted TCP connection (and the UDP
+// receive loop) runs it in its own goroutine. Stream A stalls in mid-line (its first segment ends inside a
+// line); stream B (a whole little stream of free bytes, several lines) arrives meanwhile on the same handler
+// and ends; then A resumes. Each stream must be framed as on its own: B's lines are exactly lines(B), A's lines
+// exactly lines(A), whatever the other stream did in between. The streams use disjoint alphabets (A: newline and
+// 'a'..'m', B: newline and 'n'..'z') so that the dispatched lines can be told apart; otherwise the bytes are free.
+func VerifC12TwoStreams() {
+	mk := func(tag string, first byte, n int) []byte {
+		return append([]byte{first}, verifBytes(tag, n)...)
+	}
+	la := 2 + verifChoice("lenA", 3)
+	lb := 1 + verifChoice("lenB", 3)
+	a := mk("a", 'a', la)
+	b := mk("b", 'n', lb)
+	for _, c := range a[1:] {
+		verifAssume(verifOr(c == '\n', verifAnd(c >= 'a', c <= 'm')))
+	}
+	for _, c := range b[1:] {
+		verifAssume(verifOr(c == '\n', verifAnd(c >= 'n', c <= 'z')))
+	}
+	cut := 1 + verifChoice("cut", la)
+	d := &verifCapDisp{}
+	p := NewPlain(d)
+	ra, rb := &verifConnReader{ch: make(chan []byte)}, &verifConnReader{ch: make(chan []byte)}
+	doneA, doneB := make(chan bool, 1), make(chan bool, 1)
+	var errA, errB error
+	go func() { errA = p.Handle(ra); doneA <- true }()
+	verifSettle()
+	ra.ch <- a[:cut]
+	verifSettle()
+	go func() { errB = p.Handle(rb); doneB <- true }()
+	verifSettle()
+	rb.ch <- b
+	verifSettle()
+	close(rb.ch)
+	<-doneB
+	ra.ch <- a[cut:]
+	verifSettle()
+	close(ra.ch)
+	<-doneA
+	verifAssert(errA == nil && errB == nil, "clean-end-of-stream-is-no-error")
+	// split what was dispatched by stream (disjoint alphabets; an empty line can come from either: lines are
+	// compared per stream after removing empty ones)
+	var gotA, gotB [][]byte
+	for _, l := range d.copies {
+		if len(l) == 0 {
+			continue
+		}
+		if l[0] >= 'n' {
+			gotB = append(gotB, l)
+		} else {
+			gotA = append(gotA, l)
+		}
+	}
+	nonEmpty := func(s []byte) [][]byte {
+		var r [][]byte
+		ls, _ := verifLines(s)
+		for _, l := range ls {
+			if len(l) > 0 {
+				r = append(r, l)
+			}
+		}
+		return r
+	}
+	eq := func(x, y [][]byte) bool {
+		if len(x) != len(y) {
+			return false
+		}
+		ok := true
+		for i := range x {
+			if !bytes.Equal(x[i], y[i]) {
+				ok = false
+			}
+		}
+		return ok
+	}
+	verifAssert(eq(gotB, nonEmpty(b)), "stream-framed-on-its-own-while-another-connection-waits-in-mid-line")
+	verifAssert(eq(gotA, nonEmpty(a)), "stalled-stream-framed-on-its-own-after-another-connection-came-and-went")
+	verifCover("end")
+}
